@@ -12,6 +12,7 @@ pub fn read_slp(bytes: &[u8], skip: bool, hash: bool) -> Outcome<Game> {
 		skip_frames: skip,
 		compute_hash: hash,
 		debug: None,
+		..Default::default()
 	};
 	guard(|| slippi::read(Cursor::new(bytes), Some(&opts)))
 }
@@ -54,6 +55,7 @@ pub fn write_slpp(game: Game, comp: Comp) -> Outcome<Vec<u8>> {
 			Comp::Lz4 => Some(arrow2::io::ipc::write::Compression::LZ4),
 			Comp::Zstd => Some(arrow2::io::ipc::write::Compression::ZSTD),
 		},
+		..Default::default()
 	};
 	guard(|| {
 		let mut out = vec![];
@@ -71,13 +73,13 @@ pub fn write_slpp_noopts(game: Game) -> Outcome<Vec<u8>> {
 }
 
 pub fn read_slpp(bytes: &[u8], skip: bool) -> Outcome<Game> {
-	let opts = ppi::de::Opts { skip_frames: skip };
+	let opts = ppi::de::Opts { skip_frames: skip, ..Default::default() };
 	guard(|| ppi::read(bytes, Some(&opts)))
 }
 
 /// Reads a .slpp through a stream that fragments reads (the archive as it arrives from a pipe or socket).
 pub fn read_slpp_frag(bytes: &[u8], skip: bool, frag: crate::stream::Frag) -> Outcome<Game> {
-	let opts = ppi::de::Opts { skip_frames: skip };
+	let opts = ppi::de::Opts { skip_frames: skip, ..Default::default() };
 	let r = crate::stream::FragReader::new(bytes, frag);
 	guard(|| ppi::read(r, Some(&opts)))
 }
@@ -114,6 +116,7 @@ pub fn fail_write_slpp(game: Game, comp: Comp, limit: usize) {
 			Comp::Lz4 => Some(arrow2::io::ipc::write::Compression::LZ4),
 			Comp::Zstd => Some(arrow2::io::ipc::write::Compression::ZSTD),
 		},
+		..Default::default()
 	};
 	let _ = guard(|| ppi::write(FailWriter { limit, written: 0 }, game, Some(&opts)).map_err(|e| format!("{}", e)));
 }
@@ -155,6 +158,7 @@ pub fn write_slpp_short(game: Game, comp: Comp, chunk: usize) -> Outcome<Vec<u8>
 			Comp::Lz4 => Some(arrow2::io::ipc::write::Compression::LZ4),
 			Comp::Zstd => Some(arrow2::io::ipc::write::Compression::ZSTD),
 		},
+		..Default::default()
 	};
 	guard(|| {
 		let mut w = ShortWriter { chunk, data: vec![], calls: 0 };
